@@ -801,6 +801,16 @@ func runC13(c *core.Ctx) error {
 		}, cfg, failCounted); err != nil {
 			return err
 		}
+		if err := c13Reset(c, compiled, func(g *core.GenTS) bool {
+			for _, w := range wits {
+				if w.cs.g == g {
+					return true
+				}
+			}
+			return false
+		}, cfg, failCounted); err != nil {
+			return err
+		}
 		if err := c13Retry(c, compiled, func(g *core.GenTS) bool {
 			for _, w := range wits {
 				if w.cs.g == g {
@@ -810,6 +820,81 @@ func runC13(c *core.Ctx) error {
 			return false
 		}, cfg, failCounted); err != nil {
 			return err
+		}
+	}
+	return nil
+}
+
+// c13Reset: Reset makes a builder new.  For every container type of every compiled type system, at both levels: a first
+// history (complete, cut off anywhere, or ending in a refused call), Reset, then a legal history for another inhabitant:
+// on both engines every call of the second history succeeds and the node built is the second inhabitant - nothing of
+// the first history shows.
+func c13Reset(c *core.Ctx, compiled []*core.GenTS, skip func(*core.GenTS) bool, cfg core.SchemaCfg, report func(string, core.Replay)) error {
+	type rcase struct {
+		g             *core.GenTS
+		t             *core.SType
+		lvl           string
+		payload, want string
+		n2            int
+		bind          string
+	}
+	var hs []rcase
+	var reqs []core.GenRequest
+	binds := &c13Binds{protos: map[string]datamodel.NodePrototype{}}
+	r := c.Rand.Fork()
+	for _, g := range compiled {
+		if skip(g) || g.Ambiguous() {
+			continue
+		}
+		for _, t := range g.Types {
+			if t.K != "map" && t.K != "list" && t.K != "struct" {
+				continue
+			}
+			for _, lvl := range []string{"type", "repr"} {
+				v1 := core.GenInhabitant(t, r, cfg, true)
+				v2 := core.GenInhabitant(t, r, cfg, true)
+				in1, in2 := core.TypeInput(v1), core.TypeInput(v2)
+				if lvl == "repr" {
+					r1, ok1 := core.ReprOf(t, v1)
+					r2, ok2 := core.ReprOf(t, v2)
+					if !ok1 || !ok2 {
+						continue
+					}
+					in1, in2 = r1, r2
+				}
+				ops1 := core.GenHistory(in1, r, false, true)
+				switch r.Intn(3) {
+				case 0: // cut off anywhere
+					ops1 = ops1[:r.Intn(len(ops1)+1)]
+				case 1: // cut off, then a value no position of these schemas holds at that point (a refused call, or not)
+					ops1 = append(append([]core.AsmOp{}, ops1[:r.Intn(len(ops1)+1)]...), core.AsmOp{Kind: "A", V: core.Str("\x01?")})
+				}
+				ops2 := core.GenHistory(in2, r, false, true)
+				bp, err := binds.proto(g, t.Name, lvl)
+				if err != nil {
+					continue
+				}
+				h := rcase{g: g, t: t, lvl: lvl, payload: core.OpsLine(ops1) + " RESET " + core.OpsLine(ops2), want: "built " + v2.Term(), n2: len(ops2)}
+				h.bind = core.GenObserve(bp, "reset-ops", h.payload, 0)
+				hs = append(hs, h)
+				reqs = append(reqs, core.GenRequest{Pkg: g.Index, Type: t.Name, Level: lvl, Route: "reset-ops", Payload: h.payload})
+			}
+		}
+	}
+	answers, err := core.RunGen(reqs)
+	if err != nil {
+		return err
+	}
+	for i, h := range hs {
+		caseID := fmt.Sprintf("c13 %s TYPE %s %s reset-ops 0 OPS %s", h.g.Tokens(), h.t.Name, h.lvl, h.payload)
+		c.Count(caseID, true)
+		c.Dist("reset:" + h.lvl + ":" + h.t.K)
+		wantObs := "ops\t" + strings.TrimSpace(strings.Repeat("ok ", h.n2)) + " | " + h.want
+		for engine, obs := range map[string]string{"gen": answers[i], "bindnode": h.bind} {
+			if obs != wantObs {
+				report("C13/reset-"+engine+"-builder-not-as-new", core.Replay{Kind: "oracle", Case: caseID, Impl: obs, Expected: wantObs,
+					Detail: "after Reset a builder answers a legal history as a new builder does and builds exactly its node"})
+			}
 		}
 	}
 	return nil
